@@ -151,12 +151,13 @@ func c09RowHolds(p *Program, ff *FuncFacts, s PanicSite, row *c09Row, via map[*s
 			// facts of loop conditions etc.; a bare "(" just demands that the call is conditional on something
 			for _, frag := range row.callerFacts {
 				if frag == "(" {
-					if len(cfs) == 0 {
+					if len(cfs) == 0 && !cf.EveryPathHas(site.Call.Block(), func(Fact) bool { return true }) {
 						return false, "call site " + p.InstrPos(site.Call) + " is unconditional"
 					}
 					continue
 				}
-				if !has(cfs, frag) {
+				frag := frag
+				if !has(cfs, frag) && !cf.EveryPathHas(site.Call.Block(), func(f Fact) bool { return strings.Contains(f.String(), frag) }) {
 					return false, "call site " + p.InstrPos(site.Call) + " in " + FuncKey(site.Fn) + " lacks the fact «" + frag + "»; facts there: " + factsStr(cfs)
 				}
 			}
